@@ -266,6 +266,14 @@ func init() {
 	}
 	vfNatives["vfHashBits"] = func(fr *frame, a []value) value { fr.i.side["hashbits"] = int(asInt64(a[0])); return nil }
 	vfNatives["vfHashConcrete"] = func(fr *frame, a []value) value { fr.i.side["hashconcrete"] = true; return nil }
+	// vfHashFixed: one fixed placement - the n-th distinct hashed input gets
+	// digest prefix n (W bits). A stated cut for harnesses whose property does
+	// not depend on where the digests fall.
+	vfNatives["vfHashFixed"] = func(fr *frame, a []value) value {
+		fr.i.side["hashconcrete"] = true
+		fr.i.side["hashfixed"] = true
+		return nil
+	}
 	vfNatives["vfSchedBudget"] = func(fr *frame, a []value) value { fr.i.S.switchBudget = int(asInt64(a[0])); return nil }
 	vfNatives["vfSchedLIFO"] = func(fr *frame, a []value) value { fr.i.S.lifo = fr.i.truth(a[0]); return nil }
 	vfNatives["vfMaxTicks"] = func(fr *frame, a []value) value { fr.i.S.maxTicks = int(asInt64(a[0])); return nil }
@@ -1205,6 +1213,12 @@ func (i *interpreter) hashStub(in []value) []value {
 			}
 		default:
 			out[k] = uint8(0)
+		}
+	}
+	if _, ok := i.side["hashfixed"]; ok && !i.p.concrete && concrete && W <= 8 {
+		if t, ok := out[0].(*Term); ok {
+			want := uint64(idx%(1<<uint(W))) << uint(8-W)
+			i.p.assumeEnv(i.eqv(types.Typ[types.Uint8], t, uint8(want)))
 		}
 	}
 	// functional consistency and injectivity against earlier entries
